@@ -467,6 +467,13 @@ package ast
 //@   at "buf.WriteRune(rn)" ghost clsName = clsName + strOfRune(rn)
 //@   loop#1 invariant [reader] r != nil && 0 <= r.i && r.i <= len(r.s)
 //@   loop#1 decreases [terminates C13] len(r.s) - r.i
+// no member of the class text is dropped (C17: a class written with U+FFFD contains U+FFFD; C01: classes match
+// what they list): every round of the outer loop that reads a rune adds exactly one member, to the characters
+// or to the Unicode class names
+//@   at "for {"#1 ghost nRead = 0
+//@   at "for {"#1 ghost uc0 = len(c.UnicodeClasses)
+//@   at "rn, _, err := r.ReadRune()"#1 ghost nRead = nRead + 1
+//@   loop#1 invariant [every-member-kept C17 C01] len(chars) + len(c.UnicodeClasses) == nRead + uc0
 //@   loop#2 invariant [name-so-far C04] buf == clsName
 //@   loop#2 invariant [reader] r != nil && rd0 <= r.i && r.i <= len(r.s)
 //@   loop#2 decreases [terminates C13] len(r.s) - r.i
